@@ -92,6 +92,14 @@ def index(v, i):
         return v.args[1 + ci]
     if v.op == "from_elem":
         return v.args[0]
+    if v.op == "inserted" and ci is not None and is_t(v.args[1]) and v.args[1].op == "int":
+        at = v.args[1].args[0]
+        if ci == at:
+            return v.args[2]
+        return index(v.args[0], i if ci < at else Int(ci - 1))
+    if v.op == "removed" and ci is not None and is_t(v.args[1]) and v.args[1].op == "int":
+        at = v.args[1].args[0]
+        return index(v.args[0], i if ci < at else Int(ci + 1))
     return mk("index", v, i)
 
 
@@ -162,6 +170,8 @@ def update(v, path, val):
         i = e[1] if e[0] == "i" else Int(e[1])
         return mk("updidx", old, i, update(index(old, i), rest, val))
     old = v if v is not None else mk("undef")
+    if e[0] == "rng" and len(e) == 3 and not rest:
+        return mk("updrng", old, e[1], e[2], val)      # old[lo..hi] := val (length unchanged)
     return mk("updo", old, str(e), val)
 
 
@@ -818,6 +828,10 @@ class Engine:
             return binop("Sub", v.args[2], v.args[1], "usize")
         if op == "vec_new":
             return Int(0)
+        if op in ("updrng", "updidx"):
+            return self.length(state, v.args[0])
+        if op == "inserted":
+            return binop("Add", self.length(state, v.args[0]), Int(1), "usize")
         if op in ("collected", "cloned_iter"):
             return self.length(state, v.args[0])
         if op == "mapped":
